@@ -766,7 +766,7 @@ def model_lines(c):
                     for ix, vs in ((fresh_idx, c.vals), (c.idx, c.alias_vals()))]
     if c.dom == "poly":
         pop = {"mul": 0, "stdmul": 0, "karamul": 0, "sqr": 1, "reverse": 2, "mulin": 3, "axpy": 4, "axmy": 5, "maxpy": 6,
-               "axpyin": 7, "maxpyin": 8, "axmyin": 9, "mod": 10, "gcd": 11}.get(c.op)
+               "axpyin": 7, "maxpyin": 8, "axmyin": 9, "mod": 10, "gcd": 11, "div": 12}.get(c.op)
         if pop is not None or c.op == "divmod":
             out = []
             for ix, vs in ((fresh_idx, c.vals), (c.idx, c.alias_vals())):
@@ -783,6 +783,20 @@ def model_lines(c):
         if c.op == "exp.u64" or c.op == "exp.ru" and not mg:
             num = 8         # exp(a,b,UDItype) binary loop (MG_ACTIVE) / one exp_mod primitive (MG_INACTIVE); the windowed
                             # body exp(a,b,const ruint<K>&) of MG_ACTIVE has its own model (rm_expw), see below
+        if c.op == "exp.val" or c.op == "exp.ru" and mg:
+            # the windowed body exp(a, b, const ruint<K>& c) (rm_op 30): the exponent is an OBJECT (position e).  One model run is
+            # ~5 Montgomery products per exponent nibble on Coq's binary positives: K = 6 always, K = 7 one case in three, K = 8 never
+            if K == 8 or K == 7 and sum(int(ch) for ch in str(c.vals[1])[-3:]) % 3:
+                return None
+            p1 = (-pow(p, -1, W)) % W if mg else 0
+            out = []
+            for ix, vs in ((fresh_idx, c.vals), (c.idx, c.alias_vals())):
+                ix, vs = list(ix), list(vs)
+                if c.op == "exp.ru":
+                    ix.append(max(ix) + 1); vs.append(c.extra[0])
+                ix.append(max(ix) + 1); vs.append(0)
+                out.append("rm %d 30 %d %d %d %d %s %s 0" % (mg, W, p, p1, W % p, " ".join(str(i + 1) for i in ix), " ".join(str(v) for v in vs)))
+            return out
         if num is None:
             return None
         w = c.extra[0] if c.extra else 0
@@ -824,8 +838,6 @@ def model_lines(c):
             out.append("ext %d %s %d %s %s" % (p, EXT_IRRED[str(c.param)], RING_OPNUM[c.op], " ".join(str(i + 1) for i in i4), " ".join(str(v) for v in v4)))
         return out
     if c.dom == "poly" and c.op in POLYB_OPS:
-        if c.op == "powmod" and any("," not in str(vs[2]) for vs in (c.vals, c.alias_vals())):
-            return None         # a constant modulus: P^0 = 1 is reduced to 0 by the implementation, the model leaves 1 (model restriction)
         num = POLYB_OPS[c.op]
         k = c.extra[0] if c.extra else 0
         out = []
@@ -839,6 +851,21 @@ def model_lines(c):
                 for ix, vs in ((fresh_idx, c.vals), (c.idx, c.alias_vals()))]
     if c.dom == "poly" and c.op in ("divmodin", "gcd5"):
         return ["%s %d %s %s" % ("pdivmodin" if c.op == "divmodin" else "pgcdx", c.param, " ".join(str(i + 1) for i in ix), " ".join(str(v) for v in vs))
+                for ix, vs in ((fresh_idx, c.vals), (c.idx, c.alias_vals()))]
+    if c.dom in ("Q", "QN") and c.op in ("op*=", "mulin", "op/=", "divin"):
+        out = []
+        for ix, vs in ((fresh_idx, c.vals), (c.idx, c.alias_vals())):
+            out.append("qmuldiv %d %d %d %d %s %s" % (0 if c.op in ("op*=", "mulin") else 1, 1 if c.dom == "QN" else 0, ix[0] + 1, ix[1] + 1,
+                                                   vs[0].replace("/", " "), vs[1].replace("/", " ")))
+        return out
+    if c.dom == "RU" and c.op == "left_shift" and c.param in (7, 8):
+        hb = 1 << (c.param - 1)
+        Wh = 1 << hb
+        return ["rushift 0 %d %d %d %d %d %d %d %d %d" % (Wh, hb, c.extra[0], ix[0] + 1, ix[1] + 1, int(vs[0]) // Wh, int(vs[0]) % Wh, int(vs[1]) // Wh, int(vs[1]) % Wh)
+                for ix, vs in ((fresh_idx, c.vals), (c.idx, c.alias_vals()))]
+    if c.dom == "RU" and c.op in ("lmul", "lmul_naive") and c.param in (7, 8):
+        Wh = 1 << (1 << (c.param - 1))
+        return ["rulmul 0 %d %s %s" % (Wh, " ".join(str(i + 1) for i in ix), " ".join("%d %d" % (int(v) // Wh, int(v) % Wh) for v in vs))
                 for ix, vs in ((fresh_idx, c.vals), (c.idx, c.alias_vals()))]
     if c.dom == "Q":
         qop = {"neg": 0, "inv": 1, "negin": 2, "invin": 3, "op+=": 4, "op-=": 5, "addin": 4, "subin": 5}.get(c.op)
@@ -855,7 +882,7 @@ def model_lines(c):
 RM_MODEL_OPS = {"add": 0, "sub": 1, "neg": 2, "mul": 3, "square": 4, "inv": 5, "div": 6, "mod": 7, "add.w": 9, "sub.w": 10, "mul.w": 11, "div.w": 12,
                 "mod.w": 13, "inv.w": 14, "addin": 15, "subin": 16, "negin": 17, "mulin": 18, "squarein": 19, "invin": 20, "divin": 21, "modin": 22,
                 "addmul": 23, "addin.w": 24, "subin.w": 25, "mulin.w": 26, "divin.w": 27, "modin.w": 28, "addmul.w": 29}
-POLYB_OPS = {"lcm": 0, "divin": 1, "modin": 2, "powmod": 3, "add.s": 4, "sub.s": 5, "sub.sl": 6, "div.s": 7}
+POLYB_OPS = {"lcm": 0, "divin": 1, "modin": 2, "powmod": 3, "add.s": 4, "sub.s": 5, "sub.sl": 6, "div.s": 7, "invmod": 8}
 EXT_IRRED = {}         # param "p,k" -> the irreducible polynomial the implementation drew (read from the harness in every run)
 
 
@@ -872,6 +899,11 @@ def _rm_lines(c, mg, num, W, p, w):
 def model_view(c, mline):
     """the model's output line as position values comparable with the harness output"""
     t = mline.split()
+    if c.dom == "QN":
+        return ["%s/%s" % (t[0], t[1]), "%s/%s" % (t[2], t[3])][:c.n], None
+    if c.dom == "RU" and c.op in ("left_shift", "lmul", "lmul_naive"):
+        Wh = 1 << (1 << (c.param - 1))
+        return [str(int(t[2 * k]) * Wh + int(t[2 * k + 1])) for k in range(c.n)], None
     if c.dom == "poly" and c.op in ("pdivmod", "pmod"):
         return t[:c.n], t[c.n]          # the multiplier m of the pseudo-division is returned through a reference: compared as R
     if c.dom == "RU" and c.op in ("div_q", "div_r"):
@@ -1634,6 +1666,195 @@ EXTRA_HARNESSES.append(("more", "c15_more.C", ()))
 EXTRA_GENERATORS.append(gen_zr_cases)
 
 
+# ---------------------------------------------------------------- number theory (IntNumTheoDom, IntSqrtModDom) and GFqDom array forms
+NT_OPS = {
+    "phi": (2, [0], [1], None, "n"), "lambda": (2, [0], [1], None, "n"), "lambda_inv": (2, [0], [1], None, "n"),
+    "lambda_primpow": (2, [0], [1], "k", "prime"), "lambda_inv_primpow": (2, [0], [1], "k", "prime"),
+    "order": (3, [0], [1, 2], None, "order"), "lowest_prim_root": (2, [0], [1], None, "cyclic"), "prim_root": (2, [0], [1], None, "cyclic"),
+    "prim_root.w": (2, [0], [1], None, "cyclic"), "prim_root_of_prime": (2, [0], [1], None, "prime"), "probable_prim_root": (2, [0], [1], None, "prime"),
+    "prim_inv": (2, [0], [1], None, "n"), "prim_elem": (2, [0], [1], None, "n"),
+    "sqrootmod": (3, [0], [1, 2], None, "sqn"), "sqrootmodprime": (3, [0], [1, 2], None, "sqp"),
+    "sqrootmodprimepower": (4, [0], [1, 2, 3], "k", "sqpk"), "sqrootmodpoweroftwo": (3, [0], [1, 2], "k", "sq2k"),
+    "Brillhart": (3, [0, 1], [2], None, "p14"),
+    "sumofsquaresmodprime": (4, [0, 1], [2, 3], None, "ssq"), "sumofsquaresmodprimeDeterministic": (4, [0, 1], [2, 3], None, "ssq"),
+    "sumofsquaresmodprimeMonteCarlo": (4, [0, 1], [2, 3], None, "ssq"), "sumofsquaresmodprimeNoERH": (4, [0, 1], [2, 3], None, "ssq"),
+    "sumofsquaresmodprimewithnonresidue": (5, [0, 1], [2, 3, 4], None, "ssqs"),
+}
+NT_NAMES = {"order": "rgp", "sqrootmod": "xan", "sqrootmodprime": "xap", "sqrootmodprimepower": "xapq", "sqrootmodpoweroftwo": "xaq", "Brillhart": "abp",
+            "sumofsquaresmodprime": "abkp", "sumofsquaresmodprimeDeterministic": "abkp", "sumofsquaresmodprimeMonteCarlo": "abkp",
+            "sumofsquaresmodprimeNoERH": "abkp", "sumofsquaresmodprimewithnonresidue": "abksp"}
+NT_DETERMINISTIC = ("phi", "lambda", "lambda_inv", "lambda_primpow", "lambda_inv_primpow", "order", "lowest_prim_root")
+
+
+def _factor(n):
+    f, d = {}, 2
+    while d * d <= n:
+        while n % d == 0:
+            f[d] = f.get(d, 0) + 1
+            n //= d
+        d += 1 if d == 2 else 2
+    if n > 1:
+        f[n] = f.get(n, 0) + 1
+    return f
+
+
+def _phi(n):
+    r = n
+    for q in _factor(n):
+        r -= r // q
+    return r
+
+
+def _carmichael(n, inv=True):
+    l = 1
+    for q, e in _factor(n).items():
+        t = (q - 1) * q ** (e - 1)
+        if q == 2 and e >= 3:
+            t //= 2
+        l = l * t // math.gcd(l, t)
+    return l
+
+
+def _order(g, n):
+    if math.gcd(g, n) != 1:
+        return None
+    o = _carmichael(n)
+    for q in _factor(o):
+        while o % q == 0 and pow(g, o // q, n) == 1:
+            o //= q
+    return o
+
+
+def nt_check(op, v, out, x):
+    """semantic check of the outputs `out` (ints by position) of a number-theoretic call on operand values v; None = fine,
+    else a text.  Used for the distinct-objects call AND for the aliased call (randomised algorithms: A == F is not required)."""
+    try:
+        if op == "phi": return None if out[0] == _phi(v[1]) else "phi(%d) is %d" % (v[1], _phi(v[1]))
+        if op == "lambda_inv" or op == "lambda" and v[1] % 8 != 0: return None if out[0] == _carmichael(v[1]) else "lambda(%d) is %d" % (v[1], _carmichael(v[1]))
+        if op in ("lambda_primpow", "lambda_inv_primpow") and (v[1] != 2 or x < 3 or op == "lambda_inv_primpow"):
+            return None if out[0] == _carmichael(v[1] ** x) else "lambda(%d^%d) is %d" % (v[1], x, _carmichael(v[1] ** x))
+        if op == "order": return None if out[0] == (_order(v[1] % v[2], v[2]) or 0) else "the order of %d mod %d is %s" % (v[1], v[2], _order(v[1] % v[2], v[2]))
+        if op in ("lowest_prim_root", "prim_root", "prim_root.w", "prim_root_of_prime", "probable_prim_root"):
+            n = v[1]
+            ok = _order(out[0] % n, n) == _phi(n)
+            if ok and op == "lowest_prim_root":
+                ok = all(_order(g, n) != _phi(n) for g in range(1, out[0] % n))
+            return None if ok else "%d is not a (lowest) primitive root modulo %d" % (out[0], n)
+        if op == "prim_inv": return None if _order(out[0] % v[1], v[1]) == _carmichael(v[1]) else "%d has not maximal order among the units modulo %d" % (out[0], v[1])
+        if op in ("sqrootmod", "sqrootmodprime"): return None if (out[0] * out[0] - v[1]) % v[2] == 0 else "%d^2 is not %d modulo %d" % (out[0], v[1], v[2])
+        if op == "sqrootmodprimepower": return None if (out[0] * out[0] - v[1]) % v[3] == 0 else "%d^2 is not %d modulo %d" % (out[0], v[1], v[3])
+        if op == "sqrootmodpoweroftwo": return None if (out[0] * out[0] - v[1]) % v[2] == 0 else "%d^2 is not %d modulo %d" % (out[0], v[1], v[2])
+        if op == "Brillhart": return None if out[0] ** 2 + out[1] ** 2 == v[2] else "%d^2 + %d^2 is not %d" % (out[0], out[1], v[2])
+        if op.startswith("sumofsquares"):
+            pp = v[4] if op.endswith("withnonresidue") else v[3]
+            return None if (out[0] ** 2 + out[1] ** 2 - v[2]) % pp == 0 else "%d^2 + %d^2 is not %d modulo %d" % (out[0], out[1], v[2], pp)
+    except (ZeroDivisionError, ValueError, TypeError):
+        return None
+    return None
+
+
+def gen_nt_cases(rng, exes, quick, cases):
+    reps = 3 if quick else 20
+    primes = [3, 5, 7, 13, 101, 257, 65537, 1000003, 999983]
+    p14 = [5, 13, 17, 101, 257, 65537, 1000033, 999961]
+    cyclic = [2, 4, 3, 9, 27, 18, 50, 101, 2 * 101, 125, 250, 65537, 1000003, 2 * 999983]
+    for op, (n, dests, reads, sk, tag) in sorted(NT_OPS.items()):
+        for idx in partitions(n, dests):
+            for rep in range(reps):
+                x = None
+                vals = [rng.range(2, 1000) for _ in range(n)]
+                def setc(k, v):
+                    for j in range(n):
+                        if j in reads and idx[j] == idx[k]:
+                            vals[j] = v
+                if tag == "n":
+                    setc(1, rng.choice([2, 8, 9, 12, 24, 100, 101, 1000, 65536, 3 * 5 * 7 * 11, 999983 * 2, rng.range(2, 10 ** 6)]))
+                elif tag == "prime":
+                    setc(1, rng.choice(primes if op != "probable_prim_root" else primes[1:]))
+                    x = rng.choice([1, 2, 3, 5]) if sk else None
+                elif tag == "cyclic":
+                    setc(1, rng.choice(cyclic))
+                elif tag == "order":
+                    if idx[1] == idx[2]:
+                        continue
+                    m = rng.choice([101, 100, 65537, 1000003, 81, 250])
+                    setc(2, m)
+                    g = rng.range(2, m - 1)
+                    while math.gcd(g, m) != 1:
+                        g += 1
+                    setc(1, g)
+                elif tag in ("sqn", "sqp", "sqpk", "sq2k"):
+                    if tag == "sq2k":
+                        x = rng.choice([3, 4, 6, 10, 40])
+                        mod = 1 << x
+                        r0 = rng.range(1, mod - 1) | 1
+                        mpos = 2
+                    elif tag == "sqpk":
+                        pp = rng.choice([3, 5, 7, 101])
+                        x = rng.choice([1, 2, 3, 5])
+                        mod = pp ** x
+                        r0 = rng.range(1, mod - 1)
+                        while r0 % pp == 0:
+                            r0 += 1
+                        mpos = 3
+                        if len(set([idx[1], idx[2], idx[3]])) < 3:
+                            continue
+                        setc(2, pp)
+                    else:
+                        mod = rng.choice(primes[1:]) if tag == "sqp" else rng.choice([101, 7 * 11, 9 * 25, 8 * 13, 65537, 2 * 101])
+                        r0 = rng.range(1, mod - 1)
+                        while math.gcd(r0, mod) != 1:
+                            r0 += 1
+                        mpos = 2
+                    if idx[1] == idx[mpos]:
+                        continue
+                    setc(mpos, mod)
+                    setc(1, r0 * r0 % mod)
+                elif tag == "p14":
+                    setc(2, rng.choice(p14))
+                elif tag in ("ssq", "ssqs"):
+                    if idx[2] == idx[3] or tag == "ssqs" and len(set([idx[2], idx[3], idx[4]])) < 3:
+                        continue
+                    pp = rng.choice(primes[1:])
+                    if tag == "ssq":
+                        setc(3, pp)
+                        setc(2, rng.range(0, pp - 1))
+                    else:
+                        # (a, b, k, s, p): s a non-residue with s - 1 a residue, k a non-residue (k / s is a square)
+                        pp = rng.choice([7, 13, 101, 257, 65537])
+                        ss = [t for t in range(2, pp) if pow(t, (pp - 1) // 2, pp) == pp - 1 and pow(t - 1, (pp - 1) // 2, pp) == 1][:1]
+                        ks = [t for t in range(2, pp) if pow(t, (pp - 1) // 2, pp) == pp - 1]
+                        if not ss or not ks:
+                            continue
+                        setc(4, pp); setc(3, ss[0]); setc(2, ks[rng.below(len(ks))])
+                c = Case("more", "NT", "-", op, n, dests, reads, idx, vals, [x] if x is not None else [],
+                         ("IntSqrtModDom::" if op.startswith("sq") or op.startswith("sum") or op == "Brillhart" else "IntNumTheoDom::") + op, NT_NAMES.get(op))
+                c.spec = ("NT", op, x)
+                cases.append(c)
+    # GFqDom array forms op(sz, r, a, b): positions are arrays
+    for dom, params in (("gfqarr32", ["2,4", "5,2", "7,1", "101,1"]), ("gfqarr64", ["2,3", "11,3"])):
+        for prm in params:
+            p, k = [int(t) for t in prm.split(",")]
+            q = p ** k
+            for op, (n, dests, reads, nsc) in sorted(GFQA_OPS.items()):
+                for idx in partitions(n, dests):
+                    for rep in range(2 if quick else 10):
+                        ln = rng.choice([1, 3, 8])
+                        nz = op in ("div", "div.s", "inv")
+                        def arr(j):
+                            return ",".join(str(rng.range(1 if nz else 0, q - 1)) for _ in range(ln))
+                        vals = class_values(rng, n, dests, reads, idx, arr, arr)
+                        ex = [rng.range(1, q - 1) for _ in range(nsc)]
+                        cases.append(Case("fields", dom, prm, op, n, dests, reads, idx, vals, ex, "GFqDom<%s>::%s (array form)" % ("int32_t" if dom == "gfqarr32" else "int64_t", op)))
+
+
+GFQA_OPS = {"assign": (2, [0], [1], 0), "mul": (3, [0], [1, 2], 0), "mul.s": (2, [0], [1], 1), "div": (3, [0], [1, 2], 0), "div.s": (2, [0], [1], 1),
+            "add": (3, [0], [1, 2], 0), "add.s": (2, [0], [1], 1), "sub": (3, [0], [1, 2], 0), "sub.s": (2, [0], [1], 1), "neg": (2, [0], [1], 0), "inv": (2, [0], [1], 0),
+            "axpy": (3, [0], [1, 2], 1), "axpy.c": (2, [0], [1], 2), "axpyin": (2, [0], [0, 1], 1), "axmy": (3, [0], [1, 2], 1), "axmy.c": (2, [0], [1], 2),
+            "maxpyin": (2, [0], [0, 1], 1)}
+EXTRA_GENERATORS.append(gen_nt_cases)
+
+
 # ---------------------------------------------------------------- GFq, Extension, Poly1Dom (alias comparison only)
 POLY_OPS = {
     "add": (3, [0], [1, 2], None, ""), "sub": (3, [0], [1, 2], None, ""), "mul": (3, [0], [1, 2], None, ""), "stdmul": (3, [0], [1, 2], None, ""),
@@ -1855,14 +2076,14 @@ def _load_mod(name):
     return m
 
 
-DOM_FAMILY = {"Z": "Z", "Q": "Q", "QN": "QN", "RU": "RU", "RI": "RI", "RM": "RM", "poly": "POLY", "gfq32": "GFQ", "gfq64": "GFQ", "ext": "EXT", "ZR": "ZR", "CRT": "CRT"}
+DOM_FAMILY = {"NT": "NT", "gfqarr32": "GFQA", "gfqarr64": "GFQA", "Z": "Z", "Q": "Q", "QN": "QN", "RU": "RU", "RI": "RI", "RM": "RM", "poly": "POLY", "gfq32": "GFQ", "gfq64": "GFQ", "ext": "EXT", "ZR": "ZR", "CRT": "CRT"}
 
 
 def completeness(chk, cases):
     """every public three-address declaration of the headers must be tied to harness operations (harness/c15_forms.py)"""
     import subprocess
     tables = {"RING": RING_OPS, "Z": Z_OPS, "Q": Q_OPS, "QN": Q_OPS, "RU": RU_OPS, "RI": RI_OPS, "RM": RM_OPS, "POLY": POLY_OPS, "GFQ": RING_OPS,
-              "EXT": RING_OPS, "ZR": ZR_OPS, "CRT": {"crt": 0, "crt.nf": 0}}
+              "EXT": RING_OPS, "NT": NT_OPS, "GFQA": GFQA_OPS, "ZR": ZR_OPS, "CRT": {"crt": 0, "crt.nf": 0}}
     # what this run drives: per family the operations, (operation, partition) pairs and cases
     fam_ops, fam_parts, fam_cases = {}, {}, {}
     for c in cases:
@@ -1964,7 +2185,7 @@ def completeness(chk, cases):
 
 
 # minimum number of model/implementation comparisons per model family in one run (about half of what a quick run produces)
-TIE_FLOORS_QUICK = {"ring": 9000, "rm": 1200, "rudivop": 100, "ext": 250, "poly": 350, "polyb": 80, "pdivmod": 35, "pdivmodin": 10, "pgcdx": 60,
+TIE_FLOORS_QUICK = {"qmuldiv": 20, "rushift": 8, "rulmul": 15, "ring": 9000, "rm": 1200, "rudivop": 100, "ext": 250, "poly": 350, "polyb": 80, "pdivmod": 35, "pdivmodin": 10, "pgcdx": 60,
                     "ppdivmod": 35, "ppmod": 15, "q": 40, "divmod": 30, "divmodw": 12, "gcd4": 30, "gcd5": 50, "powmod": 20}
 TIE_FLOORS_THOROUGH = dict(TIE_FLOORS_QUICK)
 
@@ -2200,7 +2421,8 @@ def main(tier, replay=None):
         bad = None
         vals = [str(v) for v in c.vals]
         avals = [str(v) for v in c.alias_vals()]
-        if c.dom == "QN":       # NoReduce mode: fractions are compared as values
+        Fraw, Araw = Fv, Av
+        if c.dom == "QN":       # NoReduce mode: fractions are compared as values (the model tie below compares the exact pairs)
             Fv, Av, vals, avals = ([q_norm_text(t) for t in l] for l in (Fv, Av, vals, avals))
         exp = spec_expect(c)
         # (a) the distinct-objects call: specification and frame
@@ -2218,8 +2440,24 @@ def main(tier, replay=None):
         for k in range(c.n):
             if bad is None and k not in c.dests and Fv[k] != vals[k]:
                 bad = ("distinct objects", "distinct objects: operand %d was modified (%s -> %s)" % (k, vals[k], Fv[k]), vals[k], Fv[k])
+        if c.dom == "NT" and bad is None:
+            iv = [int(t) for t in c.vals]
+            try:
+                msg = nt_check(c.op, iv, [int(Fv[k]) for k in c.dests], c.extra[0] if c.extra else None)
+            except ValueError:
+                msg = "unreadable output"
+            if msg:
+                bad = ("distinct objects", "distinct objects: " + msg, "a valid result", " ".join(Fv[k] for k in c.dests))
+            else:
+                ia = [int(t) for t in c.alias_vals()]
+                try:
+                    msg = nt_check(c.op, ia, [int(Av[k]) for k in c.dests], c.extra[0] if c.extra else None)
+                except ValueError:
+                    msg = "unreadable output"
+                if msg:
+                    bad = (klass, "aliased call (%s): %s" % (pat, msg), "a valid result", " ".join(Av[k] for k in c.dests))
         # (b) the aliased call against the distinct-objects call
-        if bad is None:
+        if bad is None and not (c.dom == "NT" and c.op not in NT_DETERMINISTIC):
             for k in c.dests:
                 if Av[k] != Fv[k]:
                     bad = (klass, "aliased call (%s): destination %d is %s, with distinct objects it is %s" % (pat, k, Av[k], Fv[k]), Fv[k], Av[k])
@@ -2241,7 +2479,7 @@ def main(tier, replay=None):
             mfam = model_lines(c)[0].split()[0]
             tie_by[mfam] = tie_by.get(mfam, 0) + 1
             if bad is None:
-                for tag, ml, iv, ir in (("distinct", mout[i][0], Fv, Fr), (pat, mout[i][1], Av, Ar)):
+                for tag, ml, iv, ir in (("distinct", mout[i][0], Fraw, Fr), (pat, mout[i][1], Araw, Ar)):
                     mv, mr = model_view(c, ml)
                     if mv != iv or (mr is not None and mr != ir):
                         chk.broke("correspondence model/implementation differs on %s %s [%s] %s: model=%s impl=%s" % (c.site, c.param, tag, c.line(), ml, outs[i]))
